@@ -301,9 +301,13 @@ def check(prop, tier, runs=None, workers=None, wall=None):
         say("warning: probe never hit: %s" % p)
     if det_fail:
         say("HARNESS: determinism divergence: %r" % det_fail[:5])
-        return 2
     if harness_errors:
         say("HARNESS: %d runs failed inside the harness; first: %s" % (len(harness_errors), harness_errors[0]["harness_error"][:1500]))
+    if exit_code == 1:
+        # every reported violation was confirmed by replaying its recorded plan in a new
+        # process, so it stands even if other runs diverged or failed in the harness
+        return 1
+    if det_fail or harness_errors:
         return 2
     if not good:
         say("HARNESS: no run completed")
